@@ -5,7 +5,7 @@ package tokenizers
 
 // literal text up to (not including) the next "{{" or the end of input
 //@ func (c *MustacheSpecialState) NextToken
-//@   requires c != nil && isScanner(scanner) && sc(scanner).position + 1 < len(sc(scanner).content)
+//@   requires c != nil && isScanner(scanner)
 //@   requires forall i int :: 0 <= i && i < len(sc(scanner).content) ==> scalar(sc(scanner).content[i])
 //@   ensures[C04,C12] result != nil && isScanner(scanner) && sc(scanner).content == old(sc(scanner).content) && result.typ != tokenizers.Eof
 //@   ensures[C04] spans(result.value, scanner, old(cur(scanner)), cur(scanner))
@@ -15,8 +15,16 @@ package tokenizers
 //@   ensures[C10] result.typ == tokenizers.Special
 //@   loop 0
 //@     invariant isScanner(scanner) && sc(scanner).content == old(sc(scanner).content)
-//@     invariant old(sc(scanner).position) + 1 <= sc(scanner).position && sc(scanner).position <= len(sc(scanner).content)
+//@     invariant min(old(sc(scanner).position) + 1, len(sc(scanner).content)) <= sc(scanner).position && sc(scanner).position <= len(sc(scanner).content)
 //@     invariant nextSymbol == chr(seq(sc(scanner).content), sc(scanner).position)
 //@     invariant spans(builder(tokenValue), scanner, old(cur(scanner)), sc(scanner).position)
 //@     invariant line == L(seq(sc(scanner).content), old(cur(scanner))) && column == C(seq(sc(scanner).content), old(cur(scanner)))
 //@     decreases len(sc(scanner).content) - sc(scanner).position
+
+// ---- the mustache tokenizer's read step: literal text in "special" mode, tags through the abstract tokenizer (C03) ----
+//@ func (c *MustacheTokenizer) ReadNextToken
+//@   devirt tokenizers.ITokenizerState = *MustacheSpecialState
+//@   requires c != nil && c.AbstractTokenizer != nil && absOf(c) == c.AbstractTokenizer && absOf(c.AbstractTokenizer) == c.AbstractTokenizer
+//@   requires tokInv(c.AbstractTokenizer) && typeof(c.specialState) == typeid("*MustacheSpecialState") && c.specialState.(*MustacheSpecialState) != nil
+//@   assigns c.special, c.AbstractTokenizer.LastTokenType, sc(c.AbstractTokenizer.Scanner).position, sc(c.AbstractTokenizer.Scanner).line, sc(c.AbstractTokenizer.Scanner).column
+//@   nopanic
